@@ -860,8 +860,9 @@ theorem refines_tcopy {m : St} {sp : Spec} {r : Reg} (hw : TWf m.d.tab) (hr : Re
     have h2 : (sp.live.map (·.2)).contains r = false := by simpa using this
     by_cases hneg : traitsCopy m.d.tab r < 0
     · simp [Spec.isErr, hneg]
-    · simp [Spec.isErr, Spec.isOk, hneg, h2]
-      omega
+    · have hge : 0 ≤ traitsCopy m.d.tab r := by omega
+      simp only [Spec.isErr, Spec.isOk, hneg, hge, h2, beq_self_eq_true, decide_true, decide_false, Bool.not_false,
+        Bool.and_self, Bool.or_true, Bool.false_or, Bool.true_and]
 
 theorem refines_setDefault {m : St} {sp : Spec} {id : Id} (hw : TWf m.d.tab) (hr : Rel m sp) (hs : SInv sp) :
     ∃ sp', sp.step (.setDefault id) (step m (.setDefault id)).2 = some sp' ∧ Rel (step m (.setDefault id)).1 sp' ∧
